@@ -53,6 +53,10 @@ var upgrader = websocket.Upgrader{ReadBufferSize: 4096, WriteBufferSize: 4096, S
 	CheckOrigin: func(r *http.Request) bool { return true }}
 
 func (b *wsBackend) ServeHTTP(w http.ResponseWriter, r *http.Request) {
+	if r.URL.Path == healthPath { // active health probes of labs that enable them: the origin is healthy
+		w.WriteHeader(http.StatusOK)
+		return
+	}
 	up := upgrader
 	if r.Header.Get("X-Verif-Bigframes") == "1" {
 		up.WriteBufferSize = 256 << 10 // whole messages as single frames (16-bit and 64-bit length encodings)
@@ -114,7 +118,12 @@ func envProblem(msg string) bool {
 	return false
 }
 
+// healthPath is the active health-check path of labs that enable probing.
+const healthPath = "/healthz"
+
 type wsLab struct {
+	pmu      sync.Mutex
+	pending  map[string][]*peer // accepted sessions not yet claimed, by the X-Verif-Session tag of their handshake
 	Cfg      *config.Config
 	LB       *loadbalancer.LoadBalancer
 	Server   *http.Server
@@ -127,7 +136,7 @@ type wsLab struct {
 
 func newWSLab(strategy string, nBackends int, mutate func(*config.Config)) (*wsLab, error) {
 	lab.Quiet()
-	l := &wsLab{ErrLog: &syncBuffer{}, notify: make(chan struct{}, 1), done: make(chan struct{})}
+	l := &wsLab{ErrLog: &syncBuffer{}, notify: make(chan struct{}, 1), done: make(chan struct{}), pending: map[string][]*peer{}}
 	cfg := &config.Config{}
 	cfg.Server.Port = 8080
 	cfg.LoadBalancer.Strategy = strategy
@@ -171,14 +180,53 @@ func newWSLab(strategy string, nBackends int, mutate func(*config.Config)) (*wsL
 		return nil, err
 	}
 	l.Addr = ln.Addr().String()
-	// timeouts as cmd/helios/server.go createHTTPServer sets them (defaults)
-	l.Server = &http.Server{Handler: h, ReadTimeout: 15 * time.Second, WriteTimeout: 15 * time.Second, IdleTimeout: 60 * time.Second,
-		ErrorLog: log.New(l.ErrLog, "", 0)}
+	// timeouts as cmd/helios/server.go createHTTPServer sets them: the configured value, 0 = default
+	l.Server = &http.Server{Handler: h, ReadTimeout: secsOr(cfg.Server.Timeouts.Read, 15), WriteTimeout: secsOr(cfg.Server.Timeouts.Write, 15),
+		IdleTimeout: secsOr(cfg.Server.Timeouts.Idle, 60), ErrorLog: log.New(l.ErrLog, "", 0)}
 	go func() {
 		_ = l.Server.Serve(ln)
 		close(l.done)
 	}()
 	return l, nil
+}
+
+func secsOr(v, def int) time.Duration {
+	if v == 0 {
+		v = def
+	}
+	return time.Duration(v) * time.Second
+}
+
+// claim returns the backend end of the session whose opening handshake carried X-Verif-Session: tag
+// (tag "" = no such header), waiting up to budget for the backend to report it. Sessions of several
+// clients running in parallel on one lab are told apart this way.
+func (l *wsLab) claim(tag string, budget time.Duration) *peer {
+	deadline := time.Now().Add(budget)
+	for {
+		l.pmu.Lock()
+		for _, b := range l.backends {
+			for more := true; more; {
+				select {
+				case p := <-b.accepted:
+					k := p.handshake.Get("X-Verif-Session")
+					l.pending[k] = append(l.pending[k], p)
+				default:
+					more = false
+				}
+			}
+		}
+		if q := l.pending[tag]; len(q) > 0 {
+			p := q[0]
+			l.pending[tag] = q[1:]
+			l.pmu.Unlock()
+			return p
+		}
+		l.pmu.Unlock()
+		if time.Now().After(deadline) {
+			return nil
+		}
+		time.Sleep(time.Millisecond)
+	}
 }
 
 func (l *wsLab) Close() {
@@ -209,6 +257,14 @@ func (l *wsLab) Close() {
 			break
 		}
 	}
+	l.pmu.Lock()
+	for _, q := range l.pending {
+		for _, p := range q {
+			p.kill()
+		}
+	}
+	l.pending = map[string][]*peer{}
+	l.pmu.Unlock()
 }
 
 func (l *wsLab) panicLines() []string {
